@@ -210,8 +210,24 @@ def _discharge(index, f, n, slot, art, facts, seen_pairs, canon=None):
             return None, "its strip partner {} no longer contains {}".format(pq, strip)
     toks = ARTEFACTS.get(art, (None, ()))[1] if art in ARTEFACTS else (".",)
     # (a) dominating absence test
+    def _names_the_artefact(text):
+        """the condition mentions the artefact itself, or a flag whose (only) definition does: a flag that merely keeps
+        the old NAME (`has_defaults = extract_default(doc)[1] is not None`) is not a test for the artefact"""
+        def defs_of(tok):
+            return [x for x in iter_own(f.node) if isinstance(x, (ast.Assign, ast.AnnAssign)) and x.value is not None and any(isinstance(t, ast.Name) and t.id == tok for t in (x.targets if isinstance(x, ast.Assign) else [x.target]))]
+
+        flags = {tok: defs_of(tok) for tok in toks if tok.isidentifier()}
+        flags = {tok: d for tok, d in flags.items() if d}
+        hard = [tok for tok in toks if tok not in flags]
+        if any(tok in text for tok in hard):
+            return True
+        for tok, defs in flags.items():
+            if tok in text and all(any(h in norm(d.value) for h in hard) for d in defs):
+                return True
+        return False
+
     for text, truth in facts.items():
-        if any(tok in text for tok in toks):
+        if _names_the_artefact(text):
             try:
                 if isinstance(ast.parse(text, mode="eval").body, ast.BoolOp):
                     continue  # a compound condition being false says nothing about one conjunct
